@@ -46,7 +46,7 @@ func (r *Report) Finish() int {
 	os.MkdirAll(filepath.Join(r.VerifDir, "replays"), 0o755)
 	os.MkdirAll(filepath.Join(r.VerifDir, "evidence"), 0o755)
 	exit := 0
-	var execs, steps, states int64
+	var execs, steps, states, cases int64
 	outcomes := 0
 	exhaustive := true
 	var samples []interface{}
@@ -55,6 +55,7 @@ func (r *Report) Finish() int {
 	infra := false
 	for _, st := range r.Stats {
 		execs += st.Execs
+		cases += st.Cases
 		steps += st.Steps
 		states += st.States
 		outcomes += st.NOutcomes
@@ -113,6 +114,10 @@ func (r *Report) Finish() int {
 		"exhaustive":                    exhaustive,
 		"scenarios":                     perScenario,
 		"states_note":                   "distinct happens-before fingerprints of the global state after each scheduling step, summed over scenarios and worker shards (duplicates across shards are not merged)",
+	}
+	if cases > 0 {
+		cov["input_cases_inside_executions"] = cases
+		cov["input_cases_note"] = "scenarios that enumerate an input space inside one execution (a loop over commands x lengths x octets ...) report the number of cases here; 'executions' counts schedules"
 	}
 	for k, v := range r.Extra {
 		cov[k] = v
